@@ -148,6 +148,38 @@ def hoh_kw(kw: str, inv: bool, h0: bool, h1: bool, h2: bool, a: int, b: int, c: 
     return got == want
 
 
+def null_attr_kw(kw: str, inv: bool, hoh: bool, n0: bool, n1: bool, n2: bool, a: int, b: int) -> bool:
+    """unique / distinct / has_child where the attribute is present but NULL in some members: a null is a value
+    like any other (present), so two nulls are not unique and a member with a null attribute has the child."""
+    vals = [None if n0 else a, None if n1 else b, None if n2 else a]
+    kids = [(k, cmap(("n", k), ("v", v))) for k, v in zip(("x", "y", "z"), vals)]
+    if hoh:
+        cont = cmap(*kids)
+        doc = cmap(("t", cont))
+        path = "t[" + ("!" if inv else "") + kw + "(v)]"
+        refs = ["x", "y", "z"]
+    else:
+        cont = cseq(*[e for _k, e in kids])
+        doc = cmap(("t", cont))
+        path = "t[" + ("!" if inv else "") + kw + "(v)]"
+        refs = [0, 1, 2]
+    note(values=vals, path=path, hash_of_hashes=hoh)
+    proc = Processor(LOG, doc)
+    try:
+        got = _pos(proc, path, cont)
+    except YAMLPathException:
+        got = []
+    if kw == "unique":
+        w = [i for i, v in enumerate(vals) if (_count(vals, v) > 1) == inv]
+    elif kw == "distinct":
+        w = [i for i, v in enumerate(vals) if v not in vals[:i]]
+    else:
+        w = [0, 1, 2] if not inv else []
+    want = sorted(refs[i] for i in w)
+    note(observed=got, expected=want)
+    return got == want
+
+
 def has_child_hash(inv: bool, has: bool, a: int) -> bool:
     """h[has_child(v)] on a single hash yields the hash itself exactly when it has (lacks, inverted) the key."""
     h = cmap(("n", 1))
@@ -252,6 +284,15 @@ def shards(tier, seed):
                                  [("h0", "bool"), ("h1", "bool"), ("h2", "bool"), ("a", "int"), ("b", "int"),
                                   ("c", "int")], [pre_leaves], family="hoh", budget=900,
                                  desc="t[%s%s(v)] over a hash of 3 hashes" % ("!" if inv else "", kw)))
+    for kw, invs in (("unique", (False, True)), ("distinct", (False,)), ("has_child", (False, True))):
+        for inv in invs:
+            for hoh in ((False, True) if tier == "thorough" or kw == "unique" else (False,)):
+                out.append(shard(PID, "nullattr/%s%s/%s" % ("not_" if inv else "", kw, "hoh" if hoh else "aoh"), "harness.c13",
+                                 "null_attr_kw(%r, %r, %r, n0, n1, n2, a, b)" % (kw, inv, hoh),
+                                 [("n0", "bool"), ("n1", "bool"), ("n2", "bool"), ("a", "int"), ("b", "int")],
+                                 ["-1 <= a <= 1 and -1 <= b <= 1"], family="nullattr", budget=900,
+                                 desc="[%s%s(v)] where v is present but null in some members (%s)" % (
+                                     "!" if inv else "", kw, "hash of hashes" if hoh else "Array-of-Hashes")))
     out.append(shard(PID, "has_child/hash", "harness.c13", "has_child_hash(inv, has, a)",
                      [("inv", "bool"), ("has", "bool"), ("a", "int")], ["-9 <= a <= 9"], family="has_child", budget=300,
                      desc="h[has_child(v)] / inverted on one hash"))
